@@ -41,7 +41,7 @@ Definition c14_info : ginfo := mkInfo (fun _ => []) (fun r => [82; N.of_nat r + 
 Definition c14_f : clsinfo := mkCls [102]%N 4.
 Example C14_example :
   gprint [GList [1; 2]%nat; GLeaf (VInt 1); GUser c14_f [3%nat] FRaiseAfter; GUser c14_f [] FRaise] c14_info 5 0
-  = (GOk (VList [VInt 1; VRepr [82; 50]%N]), mkG [] [3; 2]%nat).
+  = (GOk (VList [VInt 1; VRepr [82; 50]%N]), mkG [] [(3, false); (2, false)]%nat).
 Proof. vm_compute. reflexivity. Qed.
 
 (** The visited set is restored on EVERY exit of a printer call - also when a
